@@ -23,9 +23,10 @@ if ! out=$(go build $MODFLAG -tags verif -o $BIN ./cmd/mc 2>&1); then
   echo "HARNESS-ERROR: build failed"; echo "$out" | head -40; exit 2
 fi
 TIER="${2:-${VERIF_TIER:-quick}}"
-if [ "$1" = "C17" ] && [ "$TIER" = "thorough" ]; then
+if [ "$1" = "C17" ]; then
   # the supplementary free-running race pass needs a separately built -race binary
-  go build $MODFLAG -race -tags verif -o ../bin/mc-race ./cmd/mc >/dev/null 2>&1 || echo "note: -race build failed; race pass will be skipped"
+  export VERIF_RACE_BIN="$(cd .. && pwd)/bin/$(basename $BIN)-race"
+  go build $MODFLAG -race -tags verif -o "$VERIF_RACE_BIN" ./cmd/mc >/dev/null 2>&1 || echo "note: -race build failed; race pass will be skipped"
 fi
 cd "$ROOT"
 case "$1" in
@@ -37,8 +38,8 @@ LOG="$OUT/replays/$PROP/last-$TIER.log"
 mkdir -p "$OUT/replays/$PROP"
 LIMIT=2400; [ "$TIER" = "thorough" ] && LIMIT=14400
 # cap the address space: a modified /repo may decode a corrupted extent and try to allocate it (the sandbox has
-# no memory limit of its own). The -race binary of the C17 thorough pass needs a huge virtual range, so no cap there.
-if ! { [ "$PROP" = "C17" ] && [ "$TIER" = "thorough" ]; }; then ulimit -v 33554432; fi
+# no memory limit of its own). The -race binary of C17's race pass needs a huge virtual range, so no cap there.
+if [ "$PROP" != "C17" ]; then ulimit -v 33554432; fi
 timeout -k 10 $LIMIT ./bin/$(basename $BIN) check "$PROP" "$TIER" > "$LOG" 2>&1
 rc=$?
 # show the verdict lines (and a bounded amount of detail)
